@@ -277,11 +277,12 @@ def form_symbols(form):
     fields, consts, ctx = set(), set(), {}
 
     def see(t, parent):
+        plain = t["k"] == "fun" and ("s" not in t or (t["n"] in ISVEC and t["s"] == home_of(form, t["n"])))
         if t["k"] == "const":
             consts.add(t["n"])
-        elif "s" in t or t["n"] not in own:
-            fields.add((t["n"], t.get("s")))
-        if t["k"] == "fun" and "s" not in t:
+        elif not plain or t["n"] not in own:
+            fields.add((t["n"], None if plain else t.get("s")))
+        if plain:
             ctx.setdefault(t["n"], set()).add(parent)
     for it in form["integrals"]:
         walk_refs(it["e"], see)
@@ -325,7 +326,7 @@ def add_same_names(rng, form):
         if not ISVEC[n] and rng.random() < 0.7:
             sid = rng.choice([x for x in PLAIN_TWINS[False] if x != home_of(form, n)])
         else:
-            sid = rng.choice(CROSS_TWINS[True]) if ISVEC[n] else rng.choice(["V2", "WS"])
+            sid = rng.choice(CROSS_TWINS[True]) if ISVEC[n] else rng.choice([x for x in ["V", "V2", "WS"] if x != home_of(form, n)])
         if not SPACES[sid][0]:
             it = rng.choice(form["integrals"])
             e = it["e"]
